@@ -775,14 +775,21 @@ impl Fiber {
   pub fn print_error(&self, log: &mut dyn Write, error: Instance) {
     writeln!(log, "Traceback (most recent call last):").expect("Unable to write to stderr");
 
-    for frame in self.frames.iter().rev() {
+    for (index, frame) in self.frames.iter().rev().enumerate() {
       let fun = frame.fun();
       let location: String = match &*fun.name() {
         SCRIPT => SCRIPT.to_owned(),
         _ => format!("{}()", &*fun.name()),
       };
 
-      let offset = unsafe { frame.ip().offset_from(fun.chunk().instructions().as_ptr()) } as usize;
+      // a frame whose catch clauses were tried and did not match has had its ip moved
+      // into them, where the error passed through it was recorded when the search began
+      let ip = match self.backtrace_ips.iter().nth(index) {
+        Some(ip) => *ip,
+        None => frame.ip(),
+      };
+
+      let offset = unsafe { ip.offset_from(fun.chunk().instructions().as_ptr()) } as usize;
       writeln!(
         log,
         "  {}:{} in {}",
